@@ -658,7 +658,7 @@ type world struct {
 	sg   *signers
 
 	repo   registry.Repository
-	target oras.ReadOnlyTarget // real stores: to read the stored manifest underneath the API
+	target oras.ReadOnlyTarget // memory store: to read the stored manifest underneath the API
 	mock   *mockRepo
 	mockCp ocispec.Descriptor // deep copy of the object the mock hands out, taken before the first call
 	count  *countTarget
@@ -742,11 +742,7 @@ func newWorld(kind string, art *artifact, sg *signers) (*world, error) {
 		if err != nil {
 			return nil, err
 		}
-		t, ok := repo.(oras.ReadOnlyTarget)
-		if !ok {
-			return nil, fmt.Errorf("repository does not expose its target")
-		}
-		w.repo, w.target = repo, t
+		w.repo = repo // stored manifests are read from the blob files, not through the repository object
 		if w.index0, err = indexEntries(w.dir, art.Desc.Digest); err != nil {
 			return nil, err
 		}
@@ -897,15 +893,6 @@ func (w *world) pushMark() (string, error) {
 	return sb.String(), err
 }
 
-func thumbprints(c *pki.Chain) []string {
-	var out []string
-	for _, x := range c.X509() {
-		h := sha256.Sum256(x.Raw)
-		out = append(out, hex.EncodeToString(h[:]))
-	}
-	return out
-}
-
 func (w *world) ref(label string) (refT, bool) {
 	for _, rf := range w.art.refs {
 		if rf.Label == label {
@@ -924,28 +911,39 @@ func mdOf(label string) (mdT, bool) {
 	return mdT{}, false
 }
 
-// payloadProblem compares the signed payload with {mediaType, digest, size, annotations} of exp and nothing else.
-func payloadProblem(payload []byte, exp ocispec.Descriptor) (key, detail string) {
+// payloadProblem: the signed payload describes exactly the resolved descriptor plus the metadata: media type,
+// digest, size and annotations (resolved annotations + metadata) must be there and equal; any further member of
+// targetArtifact must be a member of the resolved descriptor with the same value (recorded). Members beside
+// targetArtifact are recorded only.
+func payloadProblem(payload []byte, resolved, exp ocispec.Descriptor) (key, detail string, notes []string) {
 	var top map[string]json.RawMessage
 	if err := json.Unmarshal(payload, &top); err != nil {
-		return "payload/not-json", err.Error()
+		return "payload/not-json", err.Error(), nil
 	}
 	ta, ok := top["targetArtifact"]
 	if !ok {
-		return "payload/no-target-artifact", string(payload)
+		return "payload/no-target-artifact", string(payload), nil
 	}
 	if len(top) != 1 {
-		return "payload/extra-fields", fmt.Sprintf("top-level members of %s", payload)
+		notes = append(notes, "payload/members-beside-targetArtifact")
 	}
 	var f map[string]json.RawMessage
 	if err := json.Unmarshal(ta, &f); err != nil {
-		return "payload/not-json", err.Error()
+		return "payload/not-json", err.Error(), nil
 	}
-	for k := range f {
+	rj, _ := json.Marshal(resolved)
+	var rf map[string]json.RawMessage
+	_ = json.Unmarshal(rj, &rf)
+	for _, k := range sortedRawKeys(f) {
 		switch k {
 		case "mediaType", "digest", "size", "annotations":
 		default:
-			return "payload/extra-fields", fmt.Sprintf("targetArtifact has member %q: %s", k, payload)
+			var a, b any
+			ra, ok := rf[k]
+			if !ok || json.Unmarshal(f[k], &a) != nil || json.Unmarshal(ra, &b) != nil || !reflect.DeepEqual(a, b) {
+				return "payload/not-resolved-descriptor-plus-metadata", fmt.Sprintf("targetArtifact member %q = %s is no member of the resolved descriptor %s", k, f[k], rj), notes
+			}
+			notes = append(notes, "payload/carries-further-members-of-the-resolved-descriptor")
 		}
 	}
 	var got struct {
@@ -955,13 +953,22 @@ func payloadProblem(payload []byte, exp ocispec.Descriptor) (key, detail string)
 		Annotations map[string]string `json:"annotations"`
 	}
 	if err := json.Unmarshal(ta, &got); err != nil {
-		return "payload/not-json", err.Error()
+		return "payload/not-json", err.Error(), notes
 	}
 	if got.MediaType != exp.MediaType || got.Digest != exp.Digest.String() || got.Size != exp.Size || !sameMapLoose(got.Annotations, exp.Annotations) {
 		return "payload/not-resolved-descriptor-plus-metadata", fmt.Sprintf("signed %s/%s/%d annotations %s, resolved descriptor plus metadata is %s/%s/%d annotations %s",
-			got.MediaType, got.Digest, got.Size, mapString(got.Annotations), exp.MediaType, exp.Digest, exp.Size, mapString(exp.Annotations))
+			got.MediaType, got.Digest, got.Size, mapString(got.Annotations), exp.MediaType, exp.Digest, exp.Size, mapString(exp.Annotations)), notes
 	}
-	return "", ""
+	return "", "", notes
+}
+
+func sortedRawKeys(m map[string]json.RawMessage) []string {
+	ks := make([]string, 0, len(m))
+	for k := range m {
+		ks = append(ks, k)
+	}
+	sort.Strings(ks)
+	return ks
 }
 
 // apply executes one operation. With judge=false (operations before the last one of a
@@ -1129,7 +1136,8 @@ func (w *world) apply(step int, op opT, judge bool) (vs []viol, class string, su
 	}
 
 	if serr != nil {
-		// after a failure: no new referrer, nothing pushed
+		// after a refusal: no new referrer (stated). That nothing at all reached the repository (a stray blob is no part
+		// of the repository's view of the artifact) is recorded only.
 		if len(fresh) != 0 || stillThere != len(old) {
 			add("referrers/changed-by-refused-call", "refused (%v) but the artifact now lists %d new and %d of %d old signature manifests", serr, len(fresh), stillThere, len(old))
 		}
@@ -1138,7 +1146,7 @@ func (w *world) apply(step int, op opT, judge bool) (vs []viol, class string, su
 			return vs, class, succeeded, err
 		}
 		if markAfter != markBefore {
-			add("push/after-refusal", "refused (%v) but the repository content changed: before %.300s after %.300s", serr, markBefore, markAfter)
+			w.notes = append(w.notes, "recorded:push/after-refusal (a refused call left content in the repository; not judged)")
 		}
 		if class == "" {
 			class = "refused: " + reason
@@ -1160,7 +1168,7 @@ func (w *world) apply(step int, op opT, judge bool) (vs []viol, class string, su
 		switch {
 		case (err != nil) != (s0.Err != nil):
 			add("aliasing/resolve-answer-changed", "Resolve(%q) before the first call: error %v; now: error %v", red, s0.Err, err)
-		case err == nil && !reflect.DeepEqual(d, s0.Desc):
+		case err == nil && !descEqualLoose(d, s0.Desc):
 			add("aliasing/resolve-answer-changed", "Resolve(%q) before the first call: %s/%d annotations %s; now: %s/%d annotations %s", red, s0.Desc.Digest, s0.Desc.Size, mapString(s0.Desc.Annotations), d.Digest, d.Size, mapString(d.Annotations))
 		}
 	}
@@ -1200,30 +1208,32 @@ func (w *world) apply(step int, op opT, judge bool) (vs []viol, class string, su
 
 func (w *world) judgeSuccess(add func(string, string, ...any), op opT, mt string, md mdT, snap resolved, exp ocispec.Descriptor, chain *pki.Chain, rec *recorded,
 	gotArt, gotSig ocispec.Descriptor, fresh []ocispec.Descriptor, stillThere, nOld, pushesBefore, callsBefore int) {
-	// returned artifact descriptor = the resolved one
+	// note: an observation the statement does not fix (evidence only, outcome class "recorded:<key>")
+	note := func(key string) { w.notes = append(w.notes, "recorded:"+key+" (not judged)") }
+
+	// the returned descriptors are not part of the statement
 	if !descEqualLoose(gotArt, snap.Desc) {
-		add("return/artifact-descriptor-differs-from-resolved", "returned %s/%d/%s annotations %s; resolved before the first call: %s/%d/%s annotations %s",
-			gotArt.Digest, gotArt.Size, gotArt.MediaType, mapString(gotArt.Annotations), snap.Desc.Digest, snap.Desc.Size, snap.Desc.MediaType, mapString(snap.Desc.Annotations))
+		note("return/artifact-descriptor-differs-from-resolved")
 	}
-	// the instrumented signer was asked once, for resolved descriptor + metadata
+	// the signature is over what the signer is handed: its four signed fields must be resolved descriptor + metadata
+	// (how often the signer is asked and which further fields it is shown is not stated)
 	if rec != nil {
-		switch {
-		case rec.calls-callsBefore != 1:
-			add("signer/not-called-exactly-once", "the signer was called %d times", rec.calls-callsBefore)
-		case !descEqualLoose(rec.desc, exp):
-			add("signer/descriptor-not-resolved-plus-metadata", "the signer was handed %s/%d/%s annotations %s (urls %v, artifactType %q); resolved descriptor plus metadata: %s/%d/%s annotations %s (urls %v, artifactType %q)",
-				rec.desc.Digest, rec.desc.Size, rec.desc.MediaType, mapString(rec.desc.Annotations), rec.desc.URLs, rec.desc.ArtifactType,
-				exp.Digest, exp.Size, exp.MediaType, mapString(exp.Annotations), exp.URLs, exp.ArtifactType)
+		if rec.calls-callsBefore != 1 {
+			note("signer/not-called-exactly-once")
+		}
+		if rec.calls-callsBefore >= 1 && (!same3(rec.desc, exp) || !sameMapLoose(rec.desc.Annotations, exp.Annotations)) {
+			add("signer/descriptor-not-resolved-plus-metadata", "the signer was handed %s/%d/%s annotations %s; resolved descriptor plus metadata: %s/%d/%s annotations %s",
+				rec.desc.Digest, rec.desc.Size, rec.desc.MediaType, mapString(rec.desc.Annotations), exp.Digest, exp.Size, exp.MediaType, mapString(exp.Annotations))
 		}
 	}
-	// exactly one new referrer
+	// exactly one new referrer ("the one signature pushed"), the earlier ones still there
 	if len(fresh) != 1 || stillThere != nOld {
 		add("referrers/not-exactly-one-new", "after a successful call the artifact lists %d new signature manifests and %d of the %d earlier ones", len(fresh), stillThere, nOld)
 		return
 	}
 	nd := fresh[0]
 	if !same3(nd, gotSig) {
-		add("return/signature-manifest-descriptor-differs-from-listed", "returned %s/%d/%s, listed %s/%d/%s", gotSig.Digest, gotSig.Size, gotSig.MediaType, nd.Digest, nd.Size, nd.MediaType)
+		note("return/signature-manifest-descriptor-differs-from-listed")
 	}
 	if w.mock == nil {
 		w.evals++
@@ -1233,19 +1243,28 @@ func (w *world) judgeSuccess(add func(string, string, ...any), op opT, mt string
 		add("envelope/cannot-be-fetched", "FetchSignatureBlob(%s): %v", nd.Digest, err)
 		return
 	}
+	// the envelope format is not part of the statement: the stored blob is checked in the format it declares
+	vmt := mt
 	if bd.MediaType != mt {
-		add("envelope/media-type-differs", "blob media type %q, asked for %q", bd.MediaType, mt)
+		note("envelope/media-type-differs-from-requested")
+		if bd.MediaType == mtJWS || bd.MediaType == mtCOSE {
+			vmt = bd.MediaType
+		}
 	}
-	// the envelope verifies (independent implementation) and carries the signing chain
-	res, err := refsig.Verify(mt, env)
+	// the envelope verifies (independent implementation)
+	res, err := refsig.Verify(vmt, env)
 	if err != nil {
 		add("envelope/signature-invalid", "independent check of the stored envelope: %v", err)
 		return
 	}
 	if res.ContentType != payloadType {
-		add("envelope/wrong-payload-content-type", "content type %q", res.ContentType)
+		note("envelope/payload-content-type-differs")
 	}
-	signTime, certs, err := envMeta(mt, env)
+	signTime, certs, err := envMeta(vmt, env)
+	if err != nil {
+		// the hand-written decoder does not know this header layout: ask notation-core-go's parser
+		signTime, certs, err = envMetaCore(vmt, env)
+	}
 	if err != nil {
 		add("envelope/headers-unreadable", "%v", err)
 		return
@@ -1256,47 +1275,52 @@ func (w *world) judgeSuccess(add func(string, string, ...any), op opT, mt string
 		chainOK = bytes.Equal(certs[i], raws[i].Raw)
 	}
 	if !chainOK {
-		add("envelope/chain-differs-from-signing-chain", "the envelope carries %d certificates, the signer's chain has %d (or they differ)", len(certs), len(raws))
+		note("envelope/chain-differs-from-the-configured-chain")
 	}
-	// payload == resolved descriptor (4 fields) + metadata, nothing else
-	if key, detail := payloadProblem(res.Payload, exp); key != "" {
+	// payload == resolved descriptor + metadata
+	key, detail, pnotes := payloadProblem(res.Payload, snap.Desc, exp)
+	if key != "" {
 		add(key, "%s", detail)
 	}
-	// the signature manifest
-	var subject *ocispec.Descriptor
-	var mann map[string]string
-	if w.mock != nil {
-		if len(w.mock.pushLog) != pushesBefore+1 {
-			add("push/not-exactly-one-push", "PushSignature was called %d times", len(w.mock.pushLog)-pushesBefore)
-			return
-		}
-		p := w.mock.pushLog[len(w.mock.pushLog)-1]
-		subject, mann = &p.Subject, p.Annotations
-		if p.MediaType != mt {
-			add("envelope/media-type-differs", "PushSignature media type %q, asked for %q", p.MediaType, mt)
-		}
-		if !bytes.Equal(p.Blob, env) {
-			add("envelope/pushed-bytes-differ", "PushSignature got %d bytes, fetched %d", len(p.Blob), len(env))
-		}
-	} else {
-		mb, err := fetchRaw(w.target, nd)
-		if err != nil {
-			add("push/manifest-not-in-store", "manifest %s: %v", nd.Digest, err)
-			return
-		}
-		var m anyManifest
-		if err := json.Unmarshal(mb, &m); err != nil {
-			add("push/manifest-not-json", "manifest %s: %v", nd.Digest, err)
-			return
-		}
-		subject, mann = m.Subject, m.Annotations
-		if len(m.Layers) != 1 || !same3(m.Layers[0], descOf(mt, env)) {
-			add("push/manifest-layer-is-not-the-envelope", "layers %+v, envelope %+v", m.Layers, descOf(mt, env))
-		}
-		if m.Config == nil || m.Config.MediaType != typeNotation {
-			add("push/manifest-is-not-a-notation-signature", "config %+v", m.Config)
-		}
+	for _, n := range pnotes {
+		note(n)
 	}
+	// the signature manifest as stored (read underneath the API)
+	var mb []byte
+	switch w.kind {
+	case "mock":
+		b, ok := w.mock.manifestJSON(nd.Digest)
+		if !ok {
+			add("push/manifest-not-in-store", "manifest %s is not among the pushed ones", nd.Digest)
+			return
+		}
+		mb = b
+		if len(w.mock.pushLog) != pushesBefore+1 {
+			note("push/not-exactly-one-push-call")
+		}
+	case "disk":
+		mb, err = os.ReadFile(filepath.Join(w.dir, "blobs", nd.Digest.Algorithm().String(), nd.Digest.Encoded()))
+	default:
+		mb, err = fetchRaw(w.target, nd)
+	}
+	if err != nil {
+		add("push/manifest-not-in-store", "manifest %s: %v", nd.Digest, err)
+		return
+	}
+	var m anyManifest
+	if err := json.Unmarshal(mb, &m); err != nil {
+		add("push/manifest-not-json", "manifest %s: %v", nd.Digest, err)
+		return
+	}
+	subject, mann := m.Subject, m.Annotations
+	// the manifest layout (single layer = the envelope, config of the Notation type) is not part of the statement
+	if len(m.Layers) != 1 || !same3(m.Layers[0], descOf(bd.MediaType, env)) {
+		note("push/manifest-layer-is-not-the-envelope")
+	}
+	if m.Config == nil || m.Config.MediaType != typeNotation {
+		note("push/manifest-config-is-not-the-notation-type")
+	}
+	// attached to the resolved artifact: the subject names it and describes it with nothing it does not have
 	switch {
 	case subject == nil:
 		add("push/subject-missing", "the signature manifest has no subject")
@@ -1322,18 +1346,19 @@ func (w *world) judgeSuccess(add func(string, string, ...any), op opT, mt string
 			add("push/subject-carries-foreign-annotations", "subject annotations %s, annotations of the resolved artifact %s", mapString(subject.Annotations), mapString(snap.Desc.Annotations))
 		}
 	}
-	// annotations: thumbprints of the signing chain (recomputed) and the envelope's signing time
-	want := thumbprints(chain)
+	// annotations: SHA-256 thumbprints of the signing chain (= the certificates the envelope carries, recomputed
+	// here) and the envelope's signing time
+	var want []string
+	for _, c := range certs {
+		h := sha256.Sum256(c)
+		want = append(want, hex.EncodeToString(h[:]))
+	}
 	var got []string
 	if err := json.Unmarshal([]byte(mann[annThumbprints]), &got); err != nil || !reflect.DeepEqual(got, want) {
-		add("annotations/thumbprints-are-not-sha256-of-the-signing-chain", "%s = %q; SHA-256 of the raw certificates in order: %v", annThumbprints, mann[annThumbprints], want)
+		add("annotations/thumbprints-are-not-sha256-of-the-signing-chain", "%s = %q; SHA-256 of the raw certificates of the envelope in order: %v", annThumbprints, mann[annThumbprints], want)
 	}
-	created, err := time.Parse(time.RFC3339, mann[annCreated])
-	switch {
-	case err != nil:
-		add("annotations/created-is-not-rfc3339", "%s = %q: %v", annCreated, mann[annCreated], err)
-	case !created.Equal(signTime):
-		add("annotations/created-is-not-the-signing-time", "%s = %q, the envelope was signed at %s", annCreated, mann[annCreated], signTime.UTC().Format(time.RFC3339))
+	if created, err := time.Parse(time.RFC3339, mann[annCreated]); err != nil || !created.Equal(signTime) {
+		add("annotations/created-is-not-the-signing-time", "%s = %q (parse error: %v), the envelope was signed at %s", annCreated, mann[annCreated], err, signTime.UTC().Format(time.RFC3339))
 	}
 	// a signer that supplies manifest annotations of its own: recorded, not judged (the statement fixes the two annotations above only)
 	if k, ok := w.kept[op.Signer]; ok {
@@ -1345,6 +1370,26 @@ func (w *world) judgeSuccess(add func(string, string, ...any), op opT, mt string
 			w.notes = append(w.notes, fmt.Sprintf("signer annotations %q: the map the signer returned is unchanged after the call: %v (not judged)", pa, reflect.DeepEqual(as.ann, as.orig)))
 		}
 	}
+}
+
+// envMetaCore reads signing time and certificates through notation-core-go (fallback of envMeta).
+func envMetaCore(mediaType string, env []byte) (time.Time, [][]byte, error) {
+	e, err := signature.ParseEnvelope(mediaType, env)
+	if err != nil {
+		return time.Time{}, nil, err
+	}
+	c, err := e.Content()
+	if err != nil {
+		return time.Time{}, nil, err
+	}
+	var raws [][]byte
+	for _, x := range c.SignerInfo.CertificateChain {
+		raws = append(raws, x.Raw)
+	}
+	if c.SignerInfo.SignedAttributes.SigningTime.IsZero() {
+		return time.Time{}, nil, fmt.Errorf("the envelope has no signing time")
+	}
+	return c.SignerInfo.SignedAttributes.SigningTime, raws, nil
 }
 
 // ---------------------------------------------------------------------------
@@ -1385,7 +1430,7 @@ func (w *world) reopenCheck(add func(string, string, ...any)) error {
 		switch {
 		case (err != nil) != (s0.Err != nil):
 			add("aliasing/resolve-answer-changed:reopened", "re-opened layout: Resolve(%q) before the first call: error %v; now: error %v", red, s0.Err, err)
-		case err == nil && !reflect.DeepEqual(d, s0.Desc):
+		case err == nil && !descEqualLoose(d, s0.Desc):
 			add("aliasing/resolve-answer-changed:reopened", "re-opened layout: Resolve(%q) before the first call: annotations %s; now: %s/%d annotations %s", red, mapString(s0.Desc.Annotations), d.Digest, d.Size, mapString(d.Annotations))
 		}
 	}
@@ -1659,6 +1704,7 @@ func main() {
 		"'annotation of the artifact' = annotation of the descriptor the repository resolved for that reference before the first call",
 		"signer kinds: real GenericSigner behind a recording wrapper (3 certificates), real GenericSigner unwrapped (2 certificates), instrumented signer of the harness that signs with notation-core-go at an instant 2 h in the past (2 certificates); the signer is not part of the options, so two calls with the same reference, metadata and format count as identical",
 		"annotating signers wrap the recording GenericSigner / the backdating signer and implement PluginAnnotations() returning one map object for the life of the repository; the backdating signer moves 1 h further into the past with every call of one object; whether the signer's own annotation reaches the manifest and whether SignOCI writes into the signer's map is recorded, not judged (the statement names neither)",
+		"enforced: outcome of the call (model), one new referrer after a success / none after a refusal, a verifying envelope whose payload is the resolved descriptor's media type, digest, size and annotations + metadata, the same four fields handed to an instrumented signer, a subject naming the resolved artifact without metadata or foreign annotations, thumbprints of the envelope's certificates and the envelope's signing time on the manifest, unchanged Resolve answers / handed-out object / index.json entry / caller maps. Recorded only (outcome classes 'recorded:...'): returned descriptors, number of Sign / PushSignature calls, further descriptor fields shown to the signer or signed, envelope format vs requested, payload content type, envelope chain vs configured chain, manifest layout (layer, config type), content left behind by a refused call",
 		"manifest annotations other than the thumbprints and the creation time are not judged; the descriptors returned by a refused call are not judged",
 		"on-disk layout: only the artifact's own index.json entries are compared; after a refused call the whole directory (names, sizes, index.json bytes) must be unchanged",
 	}
